@@ -4,7 +4,7 @@ from __future__ import annotations
 import ast
 from typing import Optional
 
-from ..an import count_on_paths, cut, flows_from_calls, is_method_call, reaching_defs
+from ..an import count_on_paths, cut, flows_from_calls, is_method_call, reaching_defs, value_alts
 from ..cfg import calls_at
 from ..core import Checker
 from ..loader import AnalysisError, Func, norm, walk_expr, walk_own
@@ -211,4 +211,12 @@ def _nul(ck: Checker) -> None:
             rets = [g.nodes[i] for i in r if g.nodes[i].kind == "stmt" and isinstance(g.nodes[i].ast, ast.Return)]
             ok = bool(rets) and all(isinstance(x.ast.value, ast.Constant) and x.ast.value.value is False for x in rets)
             # and the test dominates the ratio computation
+    # the non-text share is measured against the block's own length
+    okr = False
+    for n in g.nodes.values():
+        if n.kind == "stmt" and isinstance(n.ast, ast.Return) and n.ast.value is not None and not isinstance(n.ast.value, ast.Constant):
+            txt = " ".join(norm(a) for a in [n.ast.value] + [x for nm in walk_expr(n.ast.value) if isinstance(nm, ast.Name) for x in value_alts(g, n, nm, depth=3)])
+            okr = f"len({fn.pos_params[0]})" in txt and "translate(" in txt
+    ck.require(okr, "C14.ratio", fn, fn.node, "the non-text ratio is relative to the length of the block examined",
+               "the text/binary decision no longer relates the non-text bytes to len(block): short binary files are classified as text and get normalised")
     ck.require(ok, "C14.nul", fn, fn.node, "a block containing NUL is binary", "istextblock no longer classifies blocks containing a NUL byte as binary: binary content with CRLF sequences would be normalised before hashing")
